@@ -422,9 +422,15 @@ def run_sequences(gkey, seq_ids, tier, acc):
         for rd in range(rounds):
             for q in seqs:
                 wit = {"mode": "sequence", "group": gkey, "seq": q["n"], "tier": tier, "seed": env.seed()}
+                last = None
                 for _ in range(steps):
-                    r = q["rnd"].choice(rows)
-                    v, vcls = q["rnd"].choice(ok_values(r, 0 if tier == "quick" else 80))
+                    if last is not None and q["rnd"].random() < 0.15:
+                        r, v = last  # the same value assigned once more: nothing may change (a setter is idempotent)
+                        acc.count("sequence_assignments_repeated")
+                    else:
+                        r = q["rnd"].choice(rows)
+                        v, vcls = q["rnd"].choice(ok_values(r, 0 if tier == "quick" else 80))
+                    last = (r, v)
                     obj = q["objs"][r.id]
                     acc.count("sequence_assignments")
                     try:
